@@ -130,19 +130,19 @@ def parsed_pattern_matches_reference(pattern, levels):
 
 
 def _globs(tier, **fixed):
-    names = ["test", "tast", "t", "tt", "TEST", "test1", "a-b", "1", "x" * 10]
-    pats = ["i-test", "i-t?st", "i-t*t", "i-*", "i-?", "i_test", "itest", "i-[ab]-b", "i-t*", "i-*1"]
+    names = ["test", "tast", "t", "tt", "TEST", "Test", "LivingRoom", "livingroom", "test1", "a-b", "1", "x" * 10]
+    pats = ["i-test", "i-t?st", "i-t*t", "i-*", "i-?", "i_test", "itest", "i-[ab]-b", "i-t*", "i-*1", "i-Living*", "i-T?st", "i-TEST"]
     for p in pats:
         for n in names:
             yield (p, n)
 
 
-@standin("C02", cases=_globs, kind="enum-native", exhaustive=False, bound="10 internal-address glob patterns x 9 names: match == fnmatch of the normalised name against the normalised pattern; group addresses never match an internal pattern and vice versa")
+@standin("C02", cases=_globs, kind="enum-native", exhaustive=False, bound="13 internal-address glob patterns (lower and mixed case) x 12 names: match == fnmatch of the normalised name against the normalised pattern; group addresses never match an internal pattern and vice versa")
 def internal_globs_match_by_name(pattern, name):
     f = AddressFilter(pattern)
     addr = InternalGroupAddress("i-" + name)
     from fnmatch import fnmatch
 
-    assert f.match(addr) == fnmatch(addr.raw, InternalGroupAddress(pattern).raw)
+    assert f.match(addr) == fnmatchcase(addr.raw, InternalGroupAddress(pattern).raw), (pattern, name)  # case-sensitive
     assert f.match(GroupAddress(1)) is False
     assert AddressFilter("1/*/2-5").match(addr) is False
